@@ -8,7 +8,8 @@ CHECKS = {
     'C16': ('every target over {A,K} (len<=8 quick / 9 thorough) x every query len 1..4 x ignore_mods, tagged-'
             'modification variants (one or two modifications per site), an interval layer, coverage over all lists of <=2 '
             'queries (strings, annotation objects, mixed), compared state by state with a brute-force '
-            'offset scan', 'DESIGN.md section 4 / C16'),
+            'offset scan; targets with several tagged residues up to length 12; a history of queries on one parsed target; '
+            'order-insensitive containment incl. two-tag sites', 'DESIGN.md section 4 / C16'),
 }
 CHECKS['C01'] = ('deviation-bounded product space (<=3 quick / <=4 thorough simultaneous notation features out of 12 slots, '
                  'tiered spelling alphabets from a 90-entry catalogue) over abstract peptides rendered by an independent '
@@ -41,18 +42,19 @@ CHECKS['C13'] = ('every residue string of length 1..3 (quick) / 1..4 (thorough) 
                  'internal rule sets x 16-20 terminal rule pairs x max_mods 0..4 x 3 modes x 2 return types; static '
                  'builder against an own rule application, variable builder (mode skip) against the exhaustive subset '
                  'enumeration (every form exactly once), weak clauses for the other modes and overlapping rule sets; rule values '
-                 'as texts, Mod objects and mixtures',
+                 'as texts, Mod objects, numbers (int then float) and mixtures; a 10-residue string',
                  'DESIGN.md section 4 / C13')
 CHECKS['C02'] = ('deviation-bounded product space (<=3 quick / <=4 thorough of 17 axes: 9 modification slots with '
                  'catalogue modifications of known mass and multipliers 1-3; charge argument, charge/adducts in the '
                  'string, adduct argument over 9 ions x counts {-2,-1,1,2,3}, ion type, isotope, loss, precision, average '
                  'mode) against an independent mass calculator over a frozen NIST table; all 1-/2-letter residue strings; '
-                 'every Unimod entry', 'DESIGN.md section 4 / C02')
+                 'every Unimod entry; every state is asked after a priming history of composition / multiplier / rounded requests', 'DESIGN.md section 4 / C02')
 CHECKS['C03'] = ('differential exploration of the two library calculators: deviation-bounded product space (<=3 / <=4 of 17 '
                  'axes: modification slots incl. isotope labels, static rules, labile and unknown mods; ion type over all 16 '
                  'fragment types + n, charge -3..4, isotope, adducts, average mode, use_isotope_on_mods); mass == '
                  'chem_mass(comp_mass)+delta and == chem_mass(comp(estimate_delta)); anchored to the independent reference '
-                 'at low levels; every Unimod and every self-consistent PSI-MOD entry', 'DESIGN.md section 4 / C03')
+                 'at low levels; every Unimod and every self-consistent PSI-MOD entry; composition and mass asked in turn of one parsed '
+                 'object', 'DESIGN.md section 4 / C03')
 CHECKS['C05'] = ('every residue string of length 2..3 (quick) / 2..4 (thorough) over the 22 unambiguous-mass letters, plus '
                  'modified peptides (<=2 numeric/formula modifications on residues/termini, in place or as a global rule), through '
                  'fragment() and the Fragmenter class; every ion of all 6 terminal, 9 '
@@ -76,20 +78,22 @@ CHECKS['C11'] = ('deviation-bounded space of abstract peptides (tagged residue m
                  'unknown, charge, interval layouts) on all {A,K} strings of length<=4/5 and distinct-residue strings of '
                  'length<=5/6; on every state every reverse(+-swap), shift in [-2n,2n], shuffle seed 0..7, sort, slice '
                  '0<=i<=j<=n and slice-of-slice, split, through method (inplace False/True) and string function; model '
-                 'operations on the abstract peptide + inverse/identity laws + mass and unit-multiset invariants',
+                 'operations on the abstract peptide + inverse/identity laws + mass and unit-multiset invariants; a 12-residue base; '
+                 'results of objects that answered queries first',
                  'DESIGN.md section 4 / C11')
 CHECKS['C20'] = ('deviation-bounded space (<=3 of 11 slots, several modifications per slot) of abstract peptides; per state: '
                  'add_mods(strip_mods,get_mods), pop_mods, create_annotation(**dict()), copy()/dict() independence under deep '
                  'mutation in both directions, strip, construction through add_* calls in every order of the set slots, '
                  'and every single-field perturbation of the abstract peptide (value, multiplier, drop, duplicate, count '
                  'change, move, interval bound/flag, charge, adducts, label, rule, residue) for ==/!= in both directions; every '
-                 'ordered pair of 25 modification values x 7 slot kinds',
+                 'ordered pair of 25 modification values x 7 slot kinds; a 12-residue base; one dictionary used twice',
                  'DESIGN.md section 4 / C20')
 CHECKS['C19'] = ('deviation-bounded space (<=3 of 10 slots) of abstract peptides on 5 (quick) / 7 (thorough) residue strings incl. '
                  'repeated residues with different modifications; permutations / combinations / combinations_with_'
                  'replacement / product for every size 1..n, None, n+1, through function and method, compared element by '
                  'element with itertools over the (residue, own modifications) units wrapped in the unchanged prefix and '
-                 'suffix', 'DESIGN.md section 4 / C19')
+                 'suffix; a length-6 base with every size (6^6 tuples: exact count + fixed subset compared); one parsed object used '
+                 'repeatedly', 'DESIGN.md section 4 / C19')
 CHECKS['C18'] = ('deviation-bounded space (<=3 of 11 slots incl. unknown-position, interval, labile, static with residue and '
                  'N-Term/C-Term targets, isotope labels, charge/adducts) x include_plus x precision 3..8: output parses, '
                  'same residues, only numeric modifications, neutral mass preserved within (#shifts) x 0.5e-precision, '
@@ -108,7 +112,8 @@ CHECKS['C14'] = ('every composition with <=7 (quick) / <=12 (thorough, 18563) at
                  '(sorted, max/sum normalisation, lightest peak = monoisotopic mass incl. e/p/n, mean = average mass, '
                  'neutron view = mass view binned, merge adds) on a count grid up to 200 atoms incl. fractional counts, '
                  'labelled elements, Se/Cl/Br/Fe x 7 option axes at deviation<=2; the averagine wrapper on 3 masses x the same '
-                 'option space', 'DESIGN.md section 4 / C14')
+                 'option space and every triple of options; float-typed whole counts; the same request after the caller edited the '
+                 'previous result', 'DESIGN.md section 4 / C14')
 CHECKS['C15'] = ('compositions of <=3 (quick) / <=4 (thorough) terms over 18 confusable keys (C/Ce/e, H/He, N/n/Na, p/P, D, T, 13C, '
                  '2H, 15N, ...) x 11 counts (negative, zero, fractional, 500) x 3 separators x Hill order: write/parse round '
                  'trip and mass against the frozen table; every element and two isotopes of the table; additivity over all '
